@@ -261,8 +261,8 @@ def solve(equations, verbose=False):
         else:
             try:
                 solutions = sympy.solve(sympy_equations, set=True, manual=True)
-            except NotImplementedError as e:
-                # sympy has no method for this (non-linear) system
+            except Exception as e:
+                # sympy has no method for this (non-linear) system (NotImplementedError), or fails internally on it (e.g. IndexError)
                 raise SolveExceptionTooManySolutions() from e
             if solutions == []:
                 solutions = {}
